@@ -321,7 +321,7 @@ OPEN_GOALS: list = []
 LEVEL_TEXT = ("Machine-checked for all binary inputs with non-empty leaf syntenies and cost vectors with spe + 2*sloss <= dup + 2*floss, 0 <= floss, 0 <= sloss, transfer cost finite or +inf: "
               "sreconcile_extended_spfs(ALL) returns exactly the minimum-cost valid ordered solutions over the compatible root orders (or the prescribed one), all species mappings and all labellings; "
               "sreconcile_base_spfs the minimum among solutions on the LCA mapping; ANY one of them; the result is empty exactly when no root order is compatible; the solver never fails. "
-              "The model is compared with the code on root orderings, every table value, ALL sets and ANY members; a brute-force specification sample runs on every check.")
+              "The model is compared with the code on root orderings, every table value, ALL sets and ANY members; a brute-force specification sample runs on every check. The solver source is also translated into Gallina on every run (Gen/SpfsGen.v) and proved equal to the model; composed with the optimality theorems: under the premises listed in DESIGN section 8 the GENERATED sreconcile_extended_spfs / sreconcile_base_spfs under ALL return exactly the minimum-cost valid ordered solutions over the compatible root orders, no solution exactly when no order is compatible (C02_c02_gen_extended_optimum, _base_), and under ANY one of them (C02_gen_sreconcile_*_spfs_any).")
 LEVEL_NOTE = ("Trusted: Coq kernel; the translator (pyfun.py + spfs_gen.py) that regenerates Gen/SpfsGen.v from the source; hand-written model (proved equal to the generated functions, and correspondence = differential testing); C16/C18/C19/C06 layers are themselves theorems. No axioms. "
               "Theorems are about the code after fix D5. Known finding F-COHERENCE outside the region (witness replayed).")
 
